@@ -26,7 +26,7 @@ ASSUMPTIONS = [
   "configured colour / background / alignment judged on the computed styles of the reference ISD of the filtered document",
 ]
 REQUIRED = ["filtered", "cfg:color", "cfg:bg_color", "cfg:preserve_text_align", "timeline:compared", "idempotence:compared",
-            "class:position-region", "class:no-body", "class:regions:many", "class:timed-region", "regions:merged", "snap:align-preserved", "class:region-level-styles", "class:twin-regions"]
+            "class:position-region", "class:no-body", "class:regions:many", "class:timed-region", "regions:merged", "snap:align-preserved", "class:region-level-styles", "class:twin-regions", "class:childless-body"]
 SHARD_TIMEOUT = {"quick": 900, "thorough": 7200}
 N = {"quick": 90, "thorough": 2500}
 ALLOWED = {"DisplayAlign", "Extent", "Origin", "Color", "BackgroundColor", "TextAlign"}
@@ -300,6 +300,14 @@ def run(ctx, params):
       strip_hiders(adoc0)
     if i % 11 == 5:
       adoc0.body = None
+    elif i % 11 == 8 and adoc0.body is not None:
+      # a body without children (a falsy model element) that still carries styles and animation steps
+      adoc0.body.children = []
+      for prop in rng.sample(["FontStyle", "TextDecoration", "FontWeight", "Color", "TextAlign", "LineHeight"], 3):
+        adoc0.body.styles[prop] = model_docs.style_value(rng, prop)
+      adoc0.body.anims = [(prop, Fraction(rng.choice([0, 1])), Fraction(rng.choice([2, 3])), model_docs.style_value(rng, prop))
+                          for prop in rng.sample(["Color", "Opacity", "Visibility", "FontStyle"], 2)]
+      ctx.count("class:childless-body")
     cfg = gen_cfg(rng)
     if i % 6 == 1 and len(adoc0.regions) >= 2:
       # regions that are candidates for merging (same timing) but carry inheritable styles of their own, which the configuration keeps
